@@ -52,11 +52,10 @@ def quoteByte (c : UInt8) : Bytes :=
   if isSafe c then [c]
   else [37, hexDigitUpper (c.toNat / 16), hexDigitUpper (c.toNat % 16)]
 
-/-- byte-level `quote(s, '/')`; Python first encodes `s` as strict UTF-8 (see `quote?`). -/
+/-- byte-level `quote(s, '/')`.  `format_original_location` escapes the UTF-8 encoding of the
+    name, or — for a name that is not valid UTF-8 — its original bytes (`os.fsencode`): in both
+    cases the bytes the kernel knows the file by. -/
 def quote (s : Bytes) : Bytes := s.flatMap quoteByte
-
-/-- `quote` as Python runs it: `UnicodeEncodeError` (= `none`) on names that are not UTF-8. -/
-def quote? (s : Bytes) : Option Bytes := if validUtf8 s then some (quote s) else none
 
 /-! ### urllib.parse.unquote, byte level -/
 
@@ -76,23 +75,11 @@ def percentDecode : Bytes → Bytes
 termination_by s => s.length
 decreasing_by all_goals (simp_all; try omega)
 
-/-- maximal runs of ASCII bytes (what `_asciire.split` isolates) -/
-def asciiRuns : Bytes → List Bytes
-  | [] => [[]]
-  | c :: cs =>
-    if c.toNat < 0x80 then
-      match asciiRuns cs with
-      | [] => [[c]]
-      | r :: rs => (c :: r) :: rs
-    else
-      match asciiRuns cs with
-      | [] => [[]]
-      | r :: rs => if r.isEmpty then r :: rs else [] :: r :: rs
-
-/-- `unquote` is exact at byte level unless some ASCII run decodes to invalid UTF-8
-    (Python then substitutes U+FFFD) or to an embedded NUL. -/
-def unquoteLossy (s : Bytes) : Bool :=
-  (asciiRuns s).any fun r => let d := percentDecode r; !validUtf8 d || d.contains 0
+/-- `unquote(…, errors='surrogateescape')` followed by `os.fsencode` is exact at byte level
+    (percent-decoded ASCII runs are decoded with surrogateescape, other characters are kept);
+    the only values outside the modelled domain are those that decode to an embedded NUL
+    (every later `os` call then raises ValueError). -/
+def unquoteLossy (s : Bytes) : Bool := (percentDecode s).contains 0
 
 def unquote (s : Bytes) : Bytes := percentDecode s
 
